@@ -76,20 +76,42 @@ def aperture_rules(repo, res):
                        ('ymin', 'bbox.iymin - 0.5 - position[1]'), ('ymax', 'bbox.iymax - 0.5 - position[1]')):
         expect_stmt(res, 'SPEC', g, f'{name} = ' + nf_text(spec), f'{name}: pixel edge of the box recentred on the aperture (= extent - position)')
     expect_stmt(res, 'SPEC', g, nf_text('edges.append((xmin, xmax, ymin, ymax))'), 'edges handed on as (xmin, xmax, ymin, ymax)')
-    # method translation table
+    # method translation table, decided by finite-domain abstract interpretation of the function (sa/consteval.py):
+    # for every (mode, rectangle) the returned (use_exact, subpixels) pair, `subpixels` kept symbolic
+    from .. import consteval as CE
     t = repo.method(PA, '_translate_mask_mode')
-    body = [ast.unparse(s) for s in t.node.body if not (isinstance(s, ast.Expr) and isinstance(s.value, ast.Constant))]
-    want_frag = ["if mode not in ('center', 'subpixel', 'exact')", "if rectangle and mode == 'exact':\n    mode = 'subpixel'\n    subpixels = 32",
-                 "if mode == 'center':\n    use_exact = 0\n    subpixels = 1\nelif mode == 'subpixel':\n    use_exact = 0\nelif mode == 'exact':\n    use_exact = 1\n    subpixels = 1",
-                 'return (use_exact, subpixels)']
-    src = '\n'.join(body)
-    for frag in want_frag:
-        ok = frag in src
-        res.oblige('TABLE', f'_translate_mask_mode: {frag.splitlines()[0]} ...', ok, nontrivial=True)
+    S = CE.Sym('subpixels')
+    want_tab = {('center', False): (0, 1), ('subpixel', False): (0, S), ('exact', False): (1, 1),
+                ('center', True): (0, 1), ('subpixel', True): (0, S), ('exact', True): (0, 32)}
+    params = t.params
+    if params[:3] != ['mode', 'subpixels', 'rectangle']:
+        raise AnalysisError(f'vanished anchor: _translate_mask_mode parameters are {params}')
+    valid_sub = {'isinstance(subpixels, int)': True, 'subpixels <= 0': False, 'subpixels > 0': True, 'subpixels < 1': False,
+                 'subpixels >= 1': True}
+    for (mode, rect), want in want_tab.items():
+        try:
+            outs = CE.run_all(t.node, {'mode': mode, 'subpixels': S, 'rectangle': rect}, valid_sub)
+        except CE.Unsupported as exc:
+            raise AnalysisError(f'_translate_mask_mode uses a construct the table interpreter does not know: {exc}')
+        bad_out = [(o, a) for o, a in outs if o != ('RET', want)]
+        ok = not bad_out
+        got = bad_out[0][0] if bad_out else outs[0][0]
+        if bad_out and len(outs) > 1:
+            extra = {k: v for k, v in bad_out[0][1].items() if k not in valid_sub}
+            got = (got, 'when', extra)
+        res.oblige('TABLE', f'_translate_mask_mode({mode!r}, subpixels, rectangle={rect}) -> {want}', ok, nontrivial=True,
+                   sample={'mode': mode, 'rectangle': rect, 'returns': repr(got)})
         if not ok:
-            res.add(Finding('TABLE', t.fullname, frag.splitlines()[0], t.loc,
-                            f'_translate_mask_mode: the method table (center -> 1 subpixel, subpixel, exact; rectangles exact -> 32x32 '
-                            f'subpixels) changed: `{frag}` not found', {}))
+            res.add(Finding('TABLE', t.fullname, f'{mode}/{rect}', t.loc,
+                            f'_translate_mask_mode(mode={mode!r}, rectangle={rect}) yields {got!r} for a valid subpixels value; the '
+                            f'method table requires (use_exact, subpixels) = {want!r} (center -> one subpixel, subpixel -> as given, '
+                            f'exact -> exact, rectangles: exact -> 32x32 subpixels)', {}))
+    outs = CE.run_all(t.node, {'mode': 'bogus', 'subpixels': S, 'rectangle': False}, valid_sub)
+    got = outs[0][0]
+    ok = all(o == (CE.RAISE,) for o, _ in outs)
+    res.oblige('TABLE', '_translate_mask_mode rejects an unknown mode', ok, nontrivial=True)
+    if not ok:
+        res.add(Finding('TABLE', t.fullname, 'unknown mode', t.loc, f'_translate_mask_mode accepts an unknown mode (returns {got!r})', {}))
     # shapes: annulus = outer - inner on identical grids; (nx, ny) order from bbox.shape
     for mod, cls, kern, outer, inner in (
             ('circle', 'CircularMaskMixin', 'circular_overlap_grid', ['radius'], ['self.r_in']),
@@ -199,7 +221,7 @@ def run(repo, tier):
     a1_collect(repo, res, modules=MODS)
     res.floor('SPEC', 40)
     res.floor('SIB', 12)
-    res.floor('TABLE', 4)
+    res.floor('TABLE', 7)
     res.floor('L4', 15)
     res.floor('T-AXIS', 50)
     return res
